@@ -104,6 +104,14 @@ def run(cfg, V):
         o["convert"] = (db.Convert(qt, sp, base, x), db.Convert(cat, base, sp, x), db.Convert(qt, sp, u, x), db.Convert(qt, [x][0:0] or sp, sp, x))
         o["lists"] = (db.Convert(qt, sp, base, [x])[0], db.Convert(qt, sp, base, (x,))[0])
         o["qt_base"] = (qt, base)
+        # every category of the quantity type, and constructions that by-pass the quantity cache after the spelling was already used once
+        from barril.units import Quantity
+
+        others = [c for c in db.IterCategories() if db.GetCategoryQuantityType(c) == qt]
+        o["other_cats"] = [c for c in others if not (Scalar(x, sp, c) == Scalar(x, u, c) and Scalar(x, sp, c).GetUnit() == u and Array([x], sp, c) == Array([x], u, c))]
+        q_direct = Quantity(cat, sp)
+        q_cap = ObtainQuantity(sp, cat, "second caption")
+        o["second_use"] = (q_direct == ObtainQuantity(u, cat), q_direct.GetUnit(), q_cap.GetUnit(), Scalar(q_direct, x) == Scalar(x, u, cat))
         # category registration with legacy spellings
         i1 = db.AddCategory("c16_a", qt, valid_units=[sp] + other, default_unit=sp)
         i2 = db.AddCategory("c16_b", qt, valid_units=[sp] + other)
@@ -133,7 +141,9 @@ def props(cfg, T, obs):
         ("GetDefaultCategory agrees", obs["cat"][0] == obs["cat"][1]),
         ("ObtainQuantity builds the equal quantity (current unit inside)", bool(obs["q"])),
         ("Scalar forms equal", bool(obs["scalar"])), ("Array forms equal", bool(obs["array"])), ("FixedArray equal", bool(obs["fixed"])),
-        ("FractionScalar equal", bool(obs["fraction"])), ("FromScalars(unit=legacy) equal", bool(obs["fromscalars"])), ("CreateCopy(unit=legacy) equal", bool(obs["copy"])),
+        ("FractionScalar equal", bool(obs["fraction"])), ("accepted under every category of the quantity type", obs["other_cats"] == []),
+        ("a second, cache-bypassing use of the spelling (legacy constructor, another caption) still yields the current unit",
+         obs["second_use"] == (True, u, u, True)), ("FromScalars(unit=legacy) equal", bool(obs["fromscalars"])), ("CreateCopy(unit=legacy) equal", bool(obs["copy"])),
         ("GetValue(legacy) gives the same conversion", z3.And(term(obs["getvalue"][0]) == term(obs["getvalue"][1]), approx(obs["getvalue"][0], from_base),
                                                             approx(obs["getvalue"][2], to_base), approx(obs["getvalue"][3], from_base))),
         ("UnitDatabase.Convert accepts the legacy spelling on both sides", z3.And(approx(obs["convert"][0], to_base), approx(obs["convert"][1], from_base),
